@@ -28,8 +28,9 @@ META = {
                 "resize/main.c: the 'Please run e2fsck -f first' precondition, size parsing, device-size and 32-bit limits, -M, online resize "
                 "(online.c), the close of the caller's handle after a failed run; 'a refused request changes nothing' is decided only for "
                 "refusals inside resize_fs before its first write and inside resize_group_descriptors",
-                "calculate_minimum_resize_size (-M / -P), the rest of adjust_fs_info behind its first bitmap call (bitmap resizing, new group "
-                "initialisation, sparse_super2 backup bookkeeping, reserved-blocks percentage in floating point), adjust_superblock's inode-table zeroing",
+                "calculate_minimum_resize_size (-M / -P), of adjust_fs_info: the shrink branch (free_gdp_blocks), a partial old last group, growth of the descriptor "
+                "table (resize of group_desc, reserved GDT adjustment), meta_bg / flex_bg / bigalloc, the real ext2fs_allocate_group_table under it "
+                "(newgroups uses a specification stub: tables go to blocks free in fs->block_map), reserved-blocks percentage in floating point, adjust_superblock's inode-table zeroing",
                 "ext2fs_flush2 / ext2fs_close2 themselves (C20 decides backup placement and 'primary superblock last'), ext2fs_allocate_group_table "
                 "(C07), ext2fs_create_resize_inode (res_gdt.c), bigalloc cluster arithmetic (extent_translate with cluster ratio > 1)",
                 "extent tables of more than 4 runs; unsorted tables with locations >= 2^31 (see the extent_cmp note in the report); "
@@ -84,6 +85,14 @@ def it_uw(ngrp, ipb, nblk=16):
          "move_itables.3:%d" % (ngrp + 1), "ext2fs_block_alloc_stats2.0:%d" % (nblk + 1),
          "io_channel_read_blk64.0:%d" % (nblk + 1), "io_channel_read_blk64.1:%d" % (ipb + 1),
          "io_channel_write_blk64.0:%d" % (nblk + 1), "io_channel_write_blk64.1:%d" % (ipb + 1)]
+
+def ngr_uw(ng, bpg=16):
+    nb = 1 + ng * bpg
+    return ["main.%d:%d" % (i, nb + 1) for i in range(7)] + \
+        ["adjust_fs_info.0:2", "adjust_fs_info.1:2", "adjust_fs_info.2:3", "adjust_fs_info.3:5", "adjust_fs_info.4:%d" % (ng - 1),
+         "ext2fs_allocate_group_table.0:%d" % (ng - 1), "ext2fs_mark_block_bitmap_range2.0:6", "test_root.0:3",
+         "ext2fs_test_generic_bmap.0:%d" % (nb + 1), "ext2fs_mark_generic_bmap.0:%d" % (nb + 1),
+         "ext2fs_unmark_generic_bmap.0:%d" % (nb + 1), "ext2fs_group_desc_csum_set.0:%d" % (ng + 1)]
 
 HARNESSES = [
     dict(name="errflag", src="errflag.c",
@@ -215,6 +224,14 @@ HARNESSES = [
          unwind=4, backends=["default"],
          bound="1 group, inode table of 4 blocks of 1 KiB (one symbolic tag byte per block, rest zero), device of 16 blocks with arbitrary content, "
                "old and new table anywhere on it (all overlaps); direction of the move per query"),
+    dict(name="newgroups", src="newgroups.c",
+         funcs=["adjust_fs_info", "ext2fs_bg_has_super", "ext2fs_reserve_super_and_bgd", "ext2fs_super_and_bgd_loc2",
+                "ext2fs_bg_flags_set", "ext2fs_group_blocks_count"],
+         extra_src=["lib/ext2fs/closefs.c", "lib/ext2fs/alloc_sb.c", "lib/ext2fs/blknum.c"],
+         configs=[{"NEWG": 3, "_unwindset": ngr_uw(3)}, {"NEWG": 4, "_unwindset": ngr_uw(4)}],
+         unwind=4, witness_per_config=True, backends=["default"],
+         bound="2 -> 3 and 2 -> 4 groups of 16 blocks, 8 inodes per group, inode table 2 blocks, 1 descriptor block; old block bitmap, "
+               "sparse_super / sparse_super2 + old s_backup_bgs, descriptor checksums, lazy_itable_init, reserved GDT 0..2, table placement symbolic"),
 ]
 MANIFEST = {
     "text": "Bounded-exhaustive model checking (CBMC) of four kernels of resize2fs compiled from the real sources: the error-flag "
